@@ -447,8 +447,9 @@ class Ev(T.Evaluator):
     def call(self, n, c, args, env):
         nm = H.callee_name(n)
         key = c.get("inst_key") or c.get("key")
-        if nm in self.hooks:
-            r = self.hooks[nm](args, n)
+        hook = self.hooks.get(key) or self.hooks.get(nm)       # by resolved callee key (crate functions) or by name (std / API)
+        if hook is not None:
+            r = hook(args, n)
             if r is not None:
                 return r
         if key in self.inline:
